@@ -85,3 +85,23 @@ package conf
 //@   requires format != nil
 //@   pure
 //@   ensures[C03] result != nil && isclo(result, "conf.TimeCoercerFactory$1") && *captured(result, "conf.TimeCoercerFactory$1", 0) == format
+
+// ---- the default formatter (C11): an issue that already has a message keeps it; otherwise the message is the
+// template for (type, code) with {{value}} and the {{param}} placeholders filled in, or the type's fallback text.
+//@ spec tmpl_known(m, e) = m != nil && has(m, e.Dtype) && m[e.Dtype] != nil && has(m[e.Dtype], e.Code)
+//@ spec tmpl_fallback(m, e) = ite(m != nil && has(m, e.Dtype) && m[e.Dtype] != nil && has(m[e.Dtype], "fallback"), m[e.Dtype]["fallback"], "")
+//@ spec placeholder(k) = concat(concat("{{", k), "}}")
+//@ func NewDefaultFormatter(m)
+//@   pure
+//@   ensures[C11] formatter_over_the_given_map: result != nil && isclo(result, "conf.NewDefaultFormatter$1") && *captured(result, "conf.NewDefaultFormatter$1", 0) == m
+//@ func NewDefaultFormatter$1(e, c)
+//@   implements functype IssueFmtFunc
+//@   modifies e.Message
+//@   ensures[C11] keeps_a_message_that_is_set: old(e.Message) != "" ==> e.Message == old(e.Message)
+//@   ensures[C11] unknown_code_gets_the_types_fallback: old(e.Message) == "" && !tmpl_known(m, e) ==> e.Message == tmpl_fallback(m, e)
+//@   ensures[C11] template_without_params: old(e.Message) == "" && tmpl_known(m, e) && e.Params == nil ==> e.Message == replaceall(m[e.Dtype][e.Code], "{{value}}", sprintv(e.Value))
+//@   ensures[C11] single_param_is_filled_in: forall(k0, String, old(e.Message) == "" && tmpl_known(m, e) && onlykey(e.Params, k0) ==> e.Message == replaceall(replaceall(m[e.Dtype][e.Code], placeholder(k0), sprintv(e.Params[k0])), "{{value}}", sprintv(e.Value)))
+//@   loop rangeiter.loop#1
+//@     invariant e.Message == "" && tmpl_known(m, e)
+//@     invariant e.Params == nil ==> msg == m[e.Dtype][e.Code]
+//@     invariant[C11] params_filled_so_far: forall(k0, String, onlykey(e.Params, k0) ==> msg == ite(visited(k0), replaceall(m[e.Dtype][e.Code], placeholder(k0), sprintv(e.Params[k0])), m[e.Dtype][e.Code]))
